@@ -62,6 +62,15 @@ Theorem C12_json_accepts_only_valid : forall (sortf : qty -> list aelem -> list 
   dm <= max_depth q w /\ Forall (elem_wf q dm) l /\ asc 0 (map (erange q w) l).
 Proof. exact json_reader_sound. Qed.
 
+(** ... and for the 2-D JSON reader: every element of an accepted document has two non-empty sides made of
+    in-domain, ascending, pairwise disjoint cells of depth <= the returned depths <= MAX_DEPTH *)
+Theorem C12_json_st_accepts_only_valid : forall (sortf : qty -> list aelem -> list aelem),
+  (forall q l, Permutation (sortf q l) l) ->
+  (forall q l, Sorted (fun a b => flat_leb q a b = true) (sortf q l)) ->
+  forall q1 w1 q2 w2 p1 p2 s d1 d2 l, st_from_json sortf q1 w1 q2 w2 p1 p2 s = J2Ok d1 d2 l ->
+  d1 <= max_depth q1 w1 /\ d2 <= max_depth q2 w2 /\ Forall (st_elem_ok q1 w1 q2 w2 d1 d2) l.
+Proof. exact st_json_reader_sound. Qed.
+
 Example C12_nonvacuous :
   text_accept Hpx 64 [(0, (0, 12))] = true /\ text_accept Hpx 64 [(0, (0, 13))] = false /\
   text_accept Hpx 64 [(0, (12, 13))] = false /\ text_accept Hpx 64 [(1, (5, 3))] = false /\
@@ -98,3 +107,4 @@ Print Assumptions C12_ascii_accepts_only_valid.
 Print Assumptions C12_mom_reader_total.
 Print Assumptions C12_skymap_reader_total.
 Print Assumptions C12_json_accepts_only_valid.
+Print Assumptions C12_json_st_accepts_only_valid.
